@@ -211,7 +211,7 @@ Proof.
   - intros c Hc. destruct (H2 c Hc) as [Ha _]. split; [rewrite content_of_base; exact Ha | exact Hx].
 Qed.
 
-(* one node: [fx] arbitrary for the abstraction, the invariant is kept by the repaired code *)
+(* one node: [fx] arbitrary for the abstraction, the invariant is kept by the code as it is (fx = true) *)
 Lemma expand_o_refines fx D n : forall top,
   wf_dict D = true -> Inv D n ->
   exists n', expand_o fx D top n = Ok n' /\
@@ -391,7 +391,7 @@ Proof.
   inversion Hc. rewrite Ha. split; [reflexivity | constructor; assumption].
 Qed.
 
-(* ------------------------------------------------------------------ all interleavings (repaired code) *)
+(* ------------------------------------------------------------------ all interleavings (code as it is, fx = true) *)
 
 Definition InvS (D : dict) (st : ostate) : Prop := InvF D (fst st) /\ Forall (InvF D) (snd st).
 Definition abs_st (st : ostate) : tstate := (map abs_p (fst st), map (map abs_p) (snd st)).
@@ -434,7 +434,7 @@ Proof.
   rewrite Hm. reflexivity.
 Qed.
 
-(* a first expansion by the code as it is (either value of the switch) refines expand_t *)
+(* a first expansion refines expand_t, before and after fix commit 60986da (either value of the switch) *)
 Lemma expand_refines fx D f :
   wf_dict D = true -> InvF D f ->
   exists f', expand_of fx D f = Ok f' /\ abs_of f' = Ok (expand_t D (map abs_p f)).
@@ -445,7 +445,7 @@ Proof.
   apply orb_false_iff in Hc as [H1 H2]. rewrite (abs_o_nocyc x H1), (IH H2). reflexivity.
 Qed.
 
-(* ------------------------------------------------------------------ the current code: witnesses *)
+(* ------------------------------------------------------------------ witnesses; fx = false: behaviour before fix commit 60986da *)
 
 Definition s_mydef : str := [77;121;68;101;102]%N.
 Definition s_red : str := [82;101;100]%N.
@@ -477,7 +477,7 @@ Lemma expand_twice_refuted_o :
              abs_of f2 = Exn RecursionError.
 Proof. eexists. split; vm_compute; reflexivity. Qed.
 
-(* the repaired code on the same witness *)
+(* the code as it is (since 60986da) on the same witness *)
 Lemma expand_twice_fixed :
   exists s2, run true ex_dict [OpExpand; OpExpand] (load ex_ann) = Ok s2 /\
              abs s2 = Ok (expand_t ex_dict ex_ann).
@@ -622,3 +622,34 @@ Lemma casefold_duplicate_example :
     = (ex_dict_sz, [DuplicateDefinition]) /\
   option_map ename (def_entry ex_dict_sz (tg BDef s_strasse_up)) = Some s_strasse_sz.
 Proof. split; [vm_compute; reflexivity|]. split; vm_compute; reflexivity. Qed.
+
+(* ------------------------------------------------------------------ the mode of the code as it is *)
+
+Lemma current_mode : current_fx = true /\ current_fs = true.
+Proof. split; reflexivity. Qed.
+
+Lemma expand_twice_now :
+  (exists s2, run current_fx ex_dict [OpExpand; OpExpand] (load ex_ann) = Ok s2 /\
+              abs s2 = Ok (expand_t ex_dict ex_ann)) /\
+  (exists s3 f3, run current_fx ex_dict [OpExpand; OpShrink; OpExpand] (load ex_ann2) = Ok s3 /\
+                 abs s3 = Ok f3 /\ run_t ex_dict [OpExpand; OpShrink; OpExpand] ex_ann2 = Ok f3).
+Proof.
+  split; [eexists; split; vm_compute; reflexivity|].
+  eexists. eexists. split; [vm_compute; reflexivity|]. split; vm_compute; reflexivity.
+Qed.
+
+Lemma interleaving_now D : wf_dict D = true -> forall ops st, InvS D st ->
+  match run_os current_fx D ops st with
+  | Ok st' => InvS D st' /\ run_ts D ops (abs_st st) = Ok (abs_st st') /\
+              abs_of (fst st') = Ok (map abs_p (fst st'))
+  | Exn e => run_ts D ops (abs_st st) = Exn e
+  end.
+Proof. exact (interleaving D). Qed.
+
+Lemma expansion_declarative_example :
+  wf_dict ex_dict_q = true /\
+  exists e c, def_entry ex_dict_q (tg BDef (s_q ++ [47;51]%N)) = Some e /\ etakes e = true /\
+              econtents e = Some c /\ ph_count c = 1 /\
+              expansion ex_dict_q (tg BDef (s_q ++ [47;51]%N)) =
+                Some [T (set_base (tg BDef (s_q ++ [47;51]%N)) BDefExpand); G (map (plug_node [51]%N) c)].
+Proof. split; [vm_compute; reflexivity|]. eexists. eexists. repeat split; vm_compute; reflexivity. Qed.
